@@ -475,7 +475,8 @@ def add_basic(u, names=None):
               "final(self).c(power as int) == 0real",
               "forall|j: int| j != power ==> final(self).c(j) == old(self).c(j)",
               "power >= old(self).coefficients@.len() ==> final(self).coefficients@ == old(self).coefficients@",
-              "final(self).tolerance == old(self).tolerance")
+              "final(self).tolerance == old(self).tolerance",
+              "final(self).coefficients@.len() <= old(self).coefficients@.len()")
 
     if want("purge_leading"):
         f = im.fn("purge_leading")
